@@ -34,7 +34,7 @@ MANIFEST = {
     'technique': 'runtime monitoring: history + reference outcome, grammar-singleton fingerprint, identity-graph disjointness, schedule perturbation (barrier, switch interval, sys.monitoring victim delay) in fresh processes, gc census',
 }
 LEVEL = 'exploration'
-BUDGET = {'quick': 60, 'thorough': 420}
+BUDGET = {'quick': 120, 'thorough': 420}
 RULE = ('(document set, history | schedule recipe); a case = one history or one fresh-process schedule run; distinct by recipe; '
         'non-trivial = more than one document / thread involved; interleavings = distinct switch-point signatures of the order '
         'in which threads entered pydbml functions')
